@@ -266,6 +266,8 @@ def check_projection(rep, prog):
             if not (isinstance(shp, (tuple, list)) and [mx.show(x) for x in shp] == ['(n_sequenced + 1)', '(n_subsampling + 1)']):
                 badr.append('result %s' % mx.show(mat)[:60])
             loops_ = [e for e in events if e[0] == 'loop']
+            if not loops_ and dec and not pcalls and not ccalls:
+                continue           # an early exit taken on an undecided test about the sizes (a matrix without rows): no row to assign
             if not loops_ or loops_[0][1].replace(' ', '') not in ('range((n_sequenced+1))', 'range(0,(n_sequenced+1))'):
                 badr.append('rows iterated over %s' % [e[1] for e in loops_][:1])
                 continue
